@@ -479,7 +479,7 @@ def classify_go_failure(out):
     return "fail"
 
 
-def coq_mismatches(name, imports, case_type, ok_fn, terms, shard=1200, timeout=900):
+def coq_mismatches(name, imports, case_type, ok_fn, terms, shard=1200, timeout=900, scope="N_scope"):
     """Evaluate `ok_fn` (a Coq function case_type -> bool from the model) on every case term with
     vm_compute, in parallel shards. Returns the sorted list of mismatching indices, or None if
     coqc failed (model no longer evaluates)."""
@@ -489,7 +489,7 @@ def coq_mismatches(name, imports, case_type, ok_fn, terms, shard=1200, timeout=9
     def one(arg):
         base, ts = arg
         txt = "From Coq Require Import List NArith ZArith String.\nImport ListNotations.\n" + imports + "\n"
-        txt += "Open Scope N_scope.\n"
+        txt += "Open Scope %s.\n" % scope
         txt += "Definition cases : list (%s) :=\n  [ %s ].\n" % (case_type, "\n  ; ".join(ts))
         txt += "Definition bad : list N := Eval vm_compute in mismatches %s cases.\nPrint bad.\n" % ok_fn
         ok, out = coq_run(txt, "%s_%d_%d" % (name, os.getpid(), base), timeout=timeout)
